@@ -45,6 +45,7 @@ WORKERS = 8
 QUICK_PROBES = 500            # sampled probes in the quick tier (plus the sentinels); thorough runs all of them
 QUICK_PROBE_VECTORS = 4
 QUICK_PROGRAMS = 40
+THOROUGH_PROBE_VECTORS = 40
 # probes that are always run with all their vectors: they decide which construct classes the random programs avoid
 SENTINELS = {"bin:<:c8,u8", "bin:>=:i16,u16", "bin:==:c8,u16", "unary:-:u8", "unary:~:u16", "unary:-:c8",
              "bin:<<:u32,i64", "type-of:<<:i32,u64", "type-of:>>:u16,u32",
@@ -374,8 +375,8 @@ def src_lines(it, o):
     return out
 
 
-def gcc_outputs(it, wd):
-    """Compile the program natively with UBSan and run it on every vector: [(returncode, stdout lines)] or None."""
+def gcc_outputs(it, wd, vec_idx=None):
+    """Compile the program natively with UBSan and run it on the selected vectors: {index: (returncode, lines)} or None."""
     d = tempfile.mkdtemp(dir=wd)
     try:
         c, exe = os.path.join(d, "p.c"), os.path.join(d, "p")
@@ -385,13 +386,13 @@ def gcc_outputs(it, wd):
                            capture_output=True, text=True, timeout=120)
         if r.returncode:
             return None
-        outs = []
-        for k in range(len(it["vecs"])):
+        outs = {}
+        for k in (range(len(it["vecs"])) if vec_idx is None else sorted(vec_idx)):
             try:
                 p = subprocess.run([exe, str(k)], capture_output=True, text=True, timeout=10)
-                outs.append((p.returncode, p.stdout.splitlines()))
+                outs[k] = (p.returncode, p.stdout.splitlines())
             except subprocess.TimeoutExpired:
-                outs.append((-1, []))
+                outs[k] = (-1, [])
         return outs
     except (OSError, subprocess.TimeoutExpired):
         return None
@@ -400,22 +401,24 @@ def gcc_outputs(it, wd):
 
 
 def gcc_guard(ctx, items, obs, only=None):
-    """{(k, a): 'agrees' | 'trap' | 'differs'} for the Src-ok executions of the selected items."""
+    """Reference guard (DESIGN 3.10): {(k, a): 'agrees' | 'trap' | 'differs'} for Src-ok executions;
+    only = None: every execution of every item (thorough tier), else {(k, a)}: just these executions."""
     if shutil.which("gcc") is None:
         return {}
-    sel = [k for k in range(len(items)) if only is None or k in only]
+    want = {}
+    for k in range(len(items)):
+        for a in range(len(items[k]["vecs"])):
+            if obs[(k, a)]["status"] == "ok" and (only is None or (k, a) in only):
+                want.setdefault(k, set()).add(a)
+    sel = sorted(want)
     with ThreadPoolExecutor(max_workers=6) as ex:
-        outs = list(ex.map(lambda k: gcc_outputs(items[k], ctx.workdir), sel))
+        outs = list(ex.map(lambda k: gcc_outputs(items[k], ctx.workdir, want[k]), sel))
     verdict = {}
     for k, o in zip(sel, outs):
         if o is None:
             continue
-        for a in range(len(items[k]["vecs"])):
-            so = obs[(k, a)]
-            if so["status"] != "ok":
-                continue
-            rc, lines = o[a]
-            verdict[(k, a)] = "trap" if rc != 0 else ("agrees" if lines == src_lines(items[k], so) else "differs")
+        for a, (rc, lines) in o.items():
+            verdict[(k, a)] = "trap" if rc != 0 else ("agrees" if lines == src_lines(items[k], obs[(k, a)]) else "differs")
     return verdict
 
 
@@ -677,7 +680,7 @@ class Engine:
         items = []
         for key, prog, small in chosen:
             f = [x for x in prog["funcs"] if x["n"] == prog["main"]][0]
-            n = None if thorough or key in SENTINELS or len(f["params"]) < 2 else QUICK_PROBE_VECTORS
+            n = None if key in SENTINELS or len(f["params"]) < 2 else (THOROUGH_PROBE_VECTORS if thorough else QUICK_PROBE_VECTORS)
             items.append(make_item(key, prog, probe_vectors(f, small, ctx.rng, n), [], "probe"))
         ctx.cov["probes_total"] = len(allp)
         ctx.cov["probes_run"] = len(items)
@@ -710,7 +713,7 @@ class Engine:
             res, bad = judge(ctx, batch, obs, "Src vs IR (%s %d)" % (name, bi // batch_size))
             guard = {}
             if bad or ctx.tier == "thorough":
-                guard = gcc_guard(ctx, batch, obs, None if ctx.tier == "thorough" else {k for k, _ in bad})
+                guard = gcc_guard(ctx, batch, obs, None if ctx.tier == "thorough" else set(bad))
             failing |= self.account(ctx, batch, obs, bad, guard, stat)
         return failing
 
